@@ -525,3 +525,44 @@ Definition mstep (st : mstate) (e : mevent) : mstate * outcome * option Z :=
 Definition mrun (st : mstate) (h : list mevent) : mstate := fold_left (fun s e => fst (fst (mstep s e))) h st.
 Definition moutcome_of (r : mstate * outcome * option Z) : outcome := snd (fst r).
 Definition mcollector_of (r : mstate * outcome * option Z) : option Z := snd r.
+
+(* ---- the ControllerRevision cache (composite) ----------------------------------------------
+   The hosted composite controllers read a parent's rollout state (which child belongs to
+   which revision) from the shared ControllerRevision lister.  A hosted controller is started
+   only when that informer has synced: until then reconcileCompositeController refuses, with
+   an error, to construct one (the reconcile is retried).  Stopping, the comparison of specs
+   and the parent-CRD checks do not depend on it. *)
+
+Record gstate := mkG {
+  g_state : state;
+  g_rev_synced : bool        (* mc.revisionInformer.HasSynced() *)
+}.
+
+Definition ginit : gstate := mkG init false.
+
+Inductive gevent :=
+| GRevSynced                 (* the informer's initial LIST has been stored; it never un-syncs *)
+| GEvent (e : event).
+
+Definition gstep (fl : flavor) (gs : gstate) (ge : gevent) : gstate * outcome * list action :=
+  match ge with
+  | GRevSynced => (mkG (g_state gs) true, ROk, [])
+  | GEvent e =>
+      let st := g_state gs in
+      let plain := let '(st', out, acts) := step fl st e in (mkG st' (g_rev_synced gs), out, acts) in
+      match fl, g_rev_synced gs, e with
+      | Composite, false, Reconcile n (LFound s CrdOk) =>
+          match stop_if_changed n s st with
+          | None => (gs, RPanic, [])
+          | Some (st1, acts) =>
+              match ifind n (insts st1) with
+              | Some _ => (mkG st1 false, ROk, acts)        (* already started, nothing has changed *)
+              | None => (mkG st1 false, RErr, acts)         (* "ControllerRevision informer has not synced" *)
+              end
+          end
+      | _, _, _ => plain
+      end
+  end.
+
+Definition grun (fl : flavor) (gs : gstate) (h : list gevent) : gstate :=
+  fold_left (fun s e => fst (fst (gstep fl s e))) h gs.
